@@ -8,6 +8,7 @@ import json
 import random
 
 from .. import common as C
+from .. import vmv
 from .. import gen, l1
 
 PID = "C08"
@@ -41,6 +42,11 @@ def run(tier, replay=None):
         c["id"] = " ; ".join(op_id(o) for o in c["hist"])
     C.log(f"[{PID}] {len(one)} single ops (all), {len(two)} of {n2} pairs, {len(sim)} simulated longer histories")
     dis, skips, st = l1.run_cases(binary, work, cases)
+    # the compiled code on the value machine MSVMV: per-instruction trace validation of the interpreter and
+    # translation validation of the compiler against MSLang (programs outside the machine's fragment are counted)
+    import random as _random
+    vres = vmv.stage(binary, work / "vmv", cases, 400 if tier == "quick" else 4000, _random.Random(rep.seed))
+    vcov = vmv.report(rep, vres, "object history")
     byid = {c["id"]: c for c in cases}
     for c in cases:
         if c["rejected"]:
@@ -53,11 +59,11 @@ def run(tier, replay=None):
         rep.violation(f"{d['path']} [{d['id']}]",
                       f"{d['path']}: history [{d['id']}]: model prescribes status={d['exp_status']} lines {exp[max(0,k-2):k+3]} at line {k}; real binary {got[max(0,k-2):k+3]} exit={d['obs_exit']} {d['obs_fclass']}",
                       dict(case=c["id"], verdict=d, files={"main.ms": c["src"]}, stderr=[o["err"] for o in c["obs"]]))
-    rep.coverage = dict(
+    rep.coverage = dict(**vcov, traces_validated_against_impl=vres["recorded"],
         evaluations=len(cases), distinct_nontrivial=sum(1 for c in cases if len(c["hist"]) >= 2),
         rule="GenObj.tla: histories over 55 operations (construct, methods incl. methods calling methods / returning Self / a new instance / taking another instance, field read/write/op=, list-typed field, aliasing by assignment / return / field / list element, `is`) on 3 variables + a Pair with class-typed and optional fields + a list of objects; all single operations, all/sampled pairs, seeded -simulate histories up to 8/15; everything observed after every operation; non-trivial = at least two operations",
         samples=[dict(id=c["id"], out=c["obs"][0]["out"][-6:]) for c in cases[:: max(1, len(cases) // 3)][:3]],
-        states=st["states"] + g2.distinct, transitions=st["transitions"] + g2.generated,
+        states=st["states"] + vres["states"] + g2.distinct, transitions=st["transitions"] + vres["transitions"] + g2.generated,
         out_of_model=len(skips), rejected_by_compiler=sum(1 for c in cases if c["rejected"]), executions=2 * len(cases),
     )
     rep.assumptions = ["MSLang object model: object = identity + one cell per declared field; methods see the class's defining scope"]
